@@ -177,14 +177,32 @@ async fn one<TC: Configuration>(cx: &mut Cx, r: &mut Rng) {
 async fn list_checks<TC: Configuration>(cx: &mut Cx, r: &mut Rng) {
     let cfg = cfg_name::<TC>();
     let mut az = RealAzks::new::<TC>().await;
+    // a shadow directory with the same history except that one leaf of epoch 1 was never inserted
+    let mut shadow = RealAzks::new::<TC>().await;
     let mut hashes = vec![az.root_hash::<TC>().await];
+    let mut shadow_hashes = hashes.clone();
     for e in 1..=4u8 {
-        let els: Vec<AzksElement> = (0..(1 + r.below(4))).map(|i| elem(rand_label(r, &[]), [e * 16 + i as u8; 32])).collect();
-        az.insert::<TC>(els, InsertMode::Directory).await.unwrap();
+        let els: Vec<AzksElement> = (0..(2 + r.below(4))).map(|i| elem(rand_label(r, &[]), [e * 16 + i as u8; 32])).collect();
+        az.insert::<TC>(els.clone(), InsertMode::Directory).await.unwrap();
         hashes.push(az.root_hash::<TC>().await);
+        let els2 = if e == 1 { els[1..].to_vec() } else { els };
+        shadow.insert::<TC>(els2, InsertMode::Directory).await.unwrap();
+        shadow_hashes.push(shadow.root_hash::<TC>().await);
     }
     let p = az.azks.get_append_only_proof::<TC, _>(&az.st, 0, 4, akd::AzksParallelismConfig::disabled()).await.unwrap();
+    let ps = shadow.azks.get_append_only_proof::<TC, _>(&shadow.st, 0, 4, akd::AzksParallelismConfig::disabled()).await.unwrap();
     let mut variants: Vec<(&str, Vec<[u8; 32]>, AppendOnlyProof, bool)> = vec![("honest", hashes.clone(), p.clone(), true)];
+    // the chain switches to the shadow directory (which lacks an earlier leaf) after k honest transitions
+    for k in 1..4usize {
+        let mut hs = hashes[..=k].to_vec();
+        hs.extend_from_slice(&shadow_hashes[k + 1..]);
+        let mut pr = p.clone();
+        for i in k..4 {
+            pr.proofs[i] = ps.proofs[i].clone();
+        }
+        variants.push(("later transitions taken from a directory lacking an earlier leaf", hs, pr, false));
+    }
+    variants.push(("honest (shadow directory)", shadow_hashes.clone(), ps.clone(), true));
     let mut h2 = hashes.clone();
     h2.pop();
     variants.push(("one hash missing", h2, p.clone(), false));
